@@ -59,6 +59,8 @@ CLAIMED.update({
                 ref='DESIGN.md §3 C23'),
     'C11': dict(text='every implicit failure site (index range, nil dereference/invoke, division by zero, explicit panic, unexpected os.Exit) of the real code executed symbolically from arbitrary invariant states: (a) image loading for a configuration set of lengths x cartridge-type bytes x RAM-size bytes with every other byte symbolic, construction failure accepted, then guest reads/writes at any address, a machine cycle and a RAM dump; (b) per cartridge kind one write to every address class/register + read anywhere + machine cycle from every component state (controller registers: every guest-writable value), and the controller harnesses per ROM/RAM size; (c) every per-cycle step function (PPU timing, renderPixel from any register state, OAM corruption, DMA, APU, timer, RTC); (d) every defined opcode and the interrupt dispatch (no failure, os.Exit never reached) and each of the 11 undefined opcodes (os.Exit reached)',
                 ref='DESIGN.md §3 C11', note=NOTE + '; image length is a finite configuration set, not symbolic'),
+    'C25': dict(text='two CPU instances (created in either order) and three, each with its own machine, alive in one process: one whole instruction of one instance (opcode = configuration) with every register/flag/memory/interrupt value of every instance symbolic: (1) all registers, scheduler fields, interrupt registers and every memory byte of the other instance(s) unchanged, (2) the stepped instance equals the reference SM83 (solo behaviour), (3) no package-level variable of any repository package written by the step; sequential interleavings follow by induction',
+                ref='DESIGN.md §3 C25', note=NOTE + '; flat memory stub per instance; concurrent stepping under the race detector is outside what this technique can encode'),
 })
 
 NA_REASON = {
